@@ -113,7 +113,7 @@ def b64u(b):
 
 def authdata(rp_id, flags, count, aaguid=None, cred_id=None, cose_bytes=None, ext=None, rp_hash=None):
     """Authenticator data laid out as the flags announce (att data iff bit 6, ext iff bit 7)."""
-    h = rp_hash if rp_hash is not None else hashlib.sha256(rp_id.encode()).digest()
+    h = rp_hash if rp_hash is not None else hashlib.sha256(rp_id.encode("utf-8", "surrogatepass")).digest()
     out = h + bytes([flags]) + struct.pack(">I", count)
     if flags & 0x40:
         out += (aaguid if aaguid is not None else bytes(16))
